@@ -65,6 +65,7 @@ type c11Case struct {
 	RetRecvErr bool   `json:",omitempty"`
 	NoRecv     bool   `json:",omitempty"` // stream handler does not read the request stream at all
 	RespN      int    // stream: number of responses
+	RespSize   int    `json:",omitempty"` // stream: payload bytes in every response (frame sizes around powers of two)
 	ErrCode    uint32 // 0 = ok
 	// JSONTwin: additionally send the same message JSON-encoded and compare (valid unary requests only)
 	JSONTwin bool `json:",omitempty"`
@@ -126,7 +127,7 @@ func (c *c11Case) service(r *c11Run) *Service {
 				}
 			}
 			for i := 0; i < c.RespN; i++ {
-				if err := stream.SendMsg(&pb.Message{Count: int32(i)}); err != nil {
+				if err := stream.SendMsg(&pb.Message{Count: int32(i), Payload: bytes.Repeat([]byte{byte('a' + i)}, c.RespSize)}); err != nil {
 					return err
 				}
 			}
@@ -535,6 +536,12 @@ func propC11(c c11Case) *Outcome {
 	if len(d.Frames) != c.RespN {
 		return o.failf("stream reply holds %d messages, handler sent %d", len(d.Frames), c.RespN)
 	}
+	for i, f := range d.Frames {
+		m := new(pb.Message)
+		if err := proto.Unmarshal(f, m); err != nil || int(m.Count) != i || len(m.Payload) != c.RespSize {
+			return o.failf("stream reply: frame %d of %d (%d bytes) is not the message the handler sent (count %d, %d payload bytes): %v", i, len(d.Frames), len(f), i, c.RespSize, err)
+		}
+	}
 	return o
 }
 
@@ -696,6 +703,10 @@ func genC11(t *rapid.T) c11Case {
 		c.RetRecvErr = rapid.Bool().Draw(t, "retrecverr")
 	}
 	c.RespN = rapid.IntRange(0, 3).Draw(t, "respn")
+	if rapid.IntRange(0, 2).Draw(t, "respsized") == 0 {
+		// response frames a few bytes around a power of two (64 B .. 16 KiB)
+		c.RespSize = 1<<rapid.IntRange(6, 14).Draw(t, "resppow") + rapid.IntRange(-14, 6).Draw(t, "respdelta")
+	}
 	if kind == kClientStream {
 		c.RespN = 1
 	}
